@@ -211,6 +211,7 @@ func (st *StateDB) Reset(root, valRoot common.Hash) error {
 	st.valTrie = vtr
 
 	st.validatorObjects = sync.Map{}
+	st.validatorsSorted = atomic.Value{}
 	st.validatorObjectsDirty = make(map[common.Address]struct{})
 	st.validatorIndex = NewValidatorIndex()
 
